@@ -457,4 +457,39 @@ def check(case):
     return out
 
 
+def fixed_cases(tier):
+    """Every single rule violation, in each of its variants, on one small supported model (the
+    generated combinations above reach a given variant only with some probability)."""
+    spec = Spec(
+        n_periods=2,
+        states={"w_x": ("lin", 1.0, 5.0, 3), "h_s": ("disc", 2)},
+        choices={"c_x": ("lin", 0.5, 2.0, 3), "d_w": ("disc", 2)},
+        functions={
+            "utility": {"args": ["c_x", "d_w", "h_s"], "body": "xp.log(c_x) - 0.3 * d_w + 0.1 * h_s"},
+            "next_w_x": {"args": ["w_x", "c_x", "d_w"], "body": "w_x - c_x + 1.5 * d_w"},
+            "next_h_s": {"args": ["h_s", "d_w"], "body": "TABH[h_s, d_w]"},
+            "budget_constraint": {"args": ["w_x", "c_x"], "body": "c_x <= w_x", "margin": "w_x - c_x"},
+        },
+        consts={"TABH": np.array([[0, 1], [1, 1]])},
+        params={"beta": 0.9, "utility": {}, "next_w_x": {}, "next_h_s": {}, "budget_constraint": {}},
+    ).to_json()
+    # the same model with a (valid) stochastic discrete state: a second, invalid stochastic
+    # variable must still be rejected
+    spec_s = Spec.from_json(spec)
+    spec_s.functions["next_h_s"] = {"args": ["h_s", "d_w"], "body": "None", "stochastic": True}
+    spec_s.params["shocks"] = {"h_s": np.array([[[0.9, 0.1], [0.5, 0.5]], [[0.2, 0.8], [0.0, 1.0]]])}
+    spec_s = spec_s.to_json()
+    out = []
+    for op in ("stochastic_continuous_state", "stochastic_continuous_dep"):
+        for v in range(4):
+            for base in (spec, spec_s):
+                out.append({"dir": "reject", "spec": base, "ops": [op], "pick": [0, 0, v, 0, 0, v % 3]})
+    for op in REJECT_OPS:
+        n_var = {"invalid_grid": 8, "n_periods": 2}.get(op, 1)
+        for v in range(n_var):
+            for key in range(4 if op == "invalid_grid" else 1):
+                out.append({"dir": "reject", "spec": spec, "ops": [op], "pick": [key if op == "invalid_grid" else v, v, 0, 0, 0, v % 3]})
+    return out
+
+
 REJECT_SKIPS = False
